@@ -112,6 +112,16 @@ Definition odiff_pyeqb (a b : option diff) : bool :=
   | _, _ => false
   end.
 
+(* the test inside `assert local_diff != remote_diff` of tryresolve / conflict / similar_insert;
+   [cs] is the generated source fact conflict_assert_strict (strict_equals instead of !=) *)
+Definition conflict_args_eqb (cs : bool) (a b : option diff) : bool :=
+  if cs then match a, b with
+             | Some x, Some y => diff_eqb x y
+             | None, None => true
+             | _, _ => false
+             end
+  else odiff_pyeqb a b.
+
 (* ---------- _pop_path / ensure_common_path / push_path ---------- *)
 Fixpoint pop_path_go (diffs : list (option diff)) (k0 : option key) (acc : list (option diff))
   : option (option key * list (option diff)) :=
@@ -205,13 +215,13 @@ Definition strategy_set (s : option pystr) : bool :=
   match s with Some (_ :: _) => true | _ => false end.
 
 (* tryresolve: returns the builder and whether an action was taken *)
-Definition b_tryresolve (B : builder) p (l r : option diff) (strategy : option pystr)
+Definition b_tryresolve (cs : bool) (B : builder) p (l r : option diff) (strategy : option pystr)
   : res (builder * bool) :=
   match strategy with
   | None | Some [] => Ok (B, false)
   | Some s =>
       if negb (truthy l && truthy r) then Err AssertionError else
-      if odiff_pyeqb l r then Err AssertionError else
+      if conflict_args_eqb cs l r then Err AssertionError else
       let act :=
         if str_eqb s s_use_local then Ok (Some ALocal)
         else if str_eqb s s_use_remote then Ok (Some ARemote)
@@ -228,17 +238,17 @@ Definition b_tryresolve (B : builder) p (l r : option diff) (strategy : option p
       end
   end.
 
-Definition b_conflict_gen (similar : option diff) (B : builder) p (l r : option diff)
+Definition b_conflict_gen (cs : bool) (similar : option diff) (B : builder) p (l r : option diff)
            (strategy : option pystr) : res builder :=
   if negb (truthy l && truthy r) then Err AssertionError else
-  if odiff_pyeqb l r then Err AssertionError else
-  do t <- b_tryresolve B p l r strategy;
+  if conflict_args_eqb cs l r then Err AssertionError else
+  do t <- b_tryresolve cs B p l r strategy;
   let '(B', taken) := t in
   if taken then Ok B' else Ok (add_decision B' p ABase l r true None None similar).
 
-Definition b_conflict := b_conflict_gen None.
-Definition b_similar_insert (B : builder) p l r (insert_diff : diff) strategy :=
-  b_conflict_gen (Some insert_diff) B p l r strategy.
+Definition b_conflict (cs : bool) := b_conflict_gen cs None.
+Definition b_similar_insert (cs : bool) (B : builder) p l r (insert_diff : diff) strategy :=
+  b_conflict_gen cs (Some insert_diff) B p l r strategy.
 
 Definition has_conflicted (B : builder) : bool := existsb d_conflict B.
 
